@@ -48,13 +48,13 @@ func newParallelGateway(wr *wiring, element *schema.ParallelGateway) (gw *parall
 	return
 }
 
-func (gw *parallelGateway) flowWhenReady() {
+func (gw *parallelGateway) flowWhenReady(ctx context.Context) {
 	if gw.reportedIncomingFlows == gw.noOfIncomingFlows {
 		gw.reportedIncomingFlows = 0
 		awaitingActions := gw.awaitingActions
 		gw.awaitingActions = make([]chan IAction, 0)
 		sequences := allSequenceFlows(&gw.outgoing)
-		distributeFlows(awaitingActions, sequences)
+		distributeFlows(ctx, awaitingActions, sequences)
 	}
 }
 
@@ -68,7 +68,7 @@ func (gw *parallelGateway) run(ctx context.Context, sender tracing.ISenderHandle
 			case nextActionMessage:
 				gw.reportedIncomingFlows++
 				gw.awaitingActions = append(gw.awaitingActions, m.response)
-				gw.flowWhenReady()
+				gw.flowWhenReady(ctx)
 				gw.tracer.Send(IncomingFlowProcessedTrace{Node: gw.element, Flow: m.flow})
 			}
 		case <-ctx.Done():
